@@ -18,7 +18,7 @@ class C18(Prop):
     rule = ("random feature / price tables on business days, calendar days or hourly session bars (missing values, differing index ranges, "
             "feature rows on dates absent from the price table), window 1..30, strides, transformers none / z-score / "
             "yeo-johnson, clip values up to 5, spreads, the NYSE calendar and, in a third of the cases, LSE / JPX / XHKG / EUREX / CME_Equity / 24-7 (holidays inside the span), start / end "
-            "bounds, a rate series, the stride given as a numpy integer scalar in 30% of the cases, folds whose episodes start in the middle of the data; the whole episode is stepped and every observation, quote, rate and timestep is "
+            "bounds, a rate series, the stride given as a numpy integer scalar in 30% of the cases, prices that repeat exactly for long stretches (a peg) in 30%, folds whose episodes start in the middle of the data; the whole episode is stepped and every observation, quote, rate and timestep is "
             "checked against the published tables. Non-trivial = window > 1 with a stride, or missing values in X, or "
             "a holiday inside the span, or X and Y indices differ; distinct = distinct cases")
     nontrivial_tags = {"stride", "missing", "holiday", "index-mismatch", "window>1"}
@@ -38,6 +38,8 @@ class C18(Prop):
             c["window"] = rng.choice([1, 2, 3, 5, 6, 10, 20])
         if rng.random() < 0.3:
             c["np_ints"] = rng.choice([1, 2])
+        if rng.random() < 0.3:
+            c["flat_prices"] = rng.choice([1, 1, 2])
         if rng.random() < 0.35:
             c["calendar"] = rng.choice(["LSE", "JPX", "XHKG", "EUREX", "24/7", "CME_Equity"])
         if rng.random() < 0.45:
@@ -89,6 +91,19 @@ class C18(Prop):
             r.tags.add("missing")
         Y = pd.DataFrame(100 * np.exp(np.cumsum(rng.normal(0, 0.01, size=(n, case["ny"])), axis=0)), index=idx,
                          columns=[f"P{i}" for i in range(case["ny"])])
+        if case.get("flat_prices"):
+            # pegged / illiquid assets: long stretches in which the price repeats exactly
+            Yv = Y.values.copy()
+            keep = rng.random(Yv.shape) < 0.35
+            keep[0, :] = True
+            for j in range(Yv.shape[1]):
+                for i in range(1, Yv.shape[0]):
+                    if not keep[i, j]:
+                        Yv[i, j] = Yv[i - 1, j]
+            if case["flat_prices"] == 2:
+                Yv[:, 0] = 1.0     # a peg
+            Y = pd.DataFrame(Yv, index=Y.index, columns=Y.columns)
+            r.tags.add("repeated-prices")
         rate_vals = rng.uniform(0, 0.03, size=n)
         if case.get("step_rate"):
             # a policy-rate path: constant for weeks, then a step (consecutive equal values)
